@@ -58,7 +58,12 @@ class MCMCOperator(Identifiable, abc.ABC):
         pass
 
     def step(self) -> Tensor:
-        self.saved_tensors = [parameter.tensor.clone() for parameter in self.parameters]
+        # the values underneath transformed parameters are saved, not the transformed
+        # ones: transform.inv(transform(x)) is not always x to the last bit
+        self.saved_tensors = [
+            [p.tensor.clone() for p in parameter.parameters()]
+            for parameter in self.parameters
+        ]
         return self._step()
 
     def accept(self) -> None:
@@ -67,9 +72,14 @@ class MCMCOperator(Identifiable, abc.ABC):
         if len(self._accept_window) > self._accept_window_length:
             self._accept_window.popleft()
 
+    def restore(self) -> None:
+        """Put back the values saved by :meth:`step`."""
+        for parameter, saved_tensors in zip(self.parameters, self.saved_tensors):
+            for p, saved_tensor in zip(parameter.parameters(), saved_tensors):
+                p.tensor = saved_tensor
+
     def reject(self) -> None:
-        for parameter, saved_tensor in zip(self.parameters, self.saved_tensors):
-            parameter.tensor = saved_tensor
+        self.restore()
         self._reject += 1
         self._accept_window.append(0)
         if len(self._accept_window) > self._accept_window_length:
